@@ -108,25 +108,34 @@ var c13Entry = &zz.ObjectEntry{
 		}) {
 			return
 		}
-		for i, rq := range in.Reqs {
-			if rq.MQTT != "" {
-				continue
-			}
-			var body *strings.Reader = strings.NewReader(rq.Body)
-			stdr, err := http.NewRequest(rq.Method, "http://example.com"+rq.Path, body)
-			if err != nil {
-				continue
-			}
-			for _, h := range rq.Headers {
-				if h[0] == "Host" {
-					stdr.Host = h[1]
+		serve := func(cls, at string) {
+			for i, rq := range in.Reqs {
+				if rq.MQTT != "" || obs.Panic != "" {
 					continue
 				}
-				stdr.Header.Add(h[0], h[1])
+				var body *strings.Reader = strings.NewReader(rq.Body)
+				stdr, err := http.NewRequest(rq.Method, "http://example.com"+rq.Path, body)
+				if err != nil {
+					continue
+				}
+				for _, h := range rq.Headers {
+					if h[0] == "Host" {
+						stdr.Host = h[1]
+						continue
+					}
+					stdr.Header.Add(h[0], h[1])
+				}
+				stdr.RemoteAddr = "10.0.0.7:12345"
+				if !zz.Stage(obs, cls, fmt.Sprintf("%s#%d", at, i), func() { m.ServeHTTP(httptest.NewRecorder(), stdr) }) {
+					break
+				}
 			}
-			stdr.RemoteAddr = "10.0.0.7:12345"
-			if !zz.Stage(obs, "handle", fmt.Sprintf("ServeHTTP#%d", i), func() { m.ServeHTTP(httptest.NewRecorder(), stdr) }) {
-				break
+		}
+		serve("handle", "ServeHTTP")
+		// the update path: the same spec reloaded into the running mux (HTTPServer.Inherit -> runtime reload)
+		if obs.Panic == "" {
+			if zz.Stage(obs, "other", "gen2.mux.reload", func() { m.reload(super, c13Mapper{}) }) {
+				serve("other", "gen2.ServeHTTP")
 			}
 		}
 		zz.Stage(obs, "other", "close", func() { m.close() })
